@@ -755,6 +755,22 @@ pub fn o_ledger(p: &Program, t: &Trace) -> Vec<Finding> {
                 out.push(f("value-vanished", format!("{:?} (insert returned true) is neither resident nor was it handed to any callback", v)));
                 continue;
             }
+            // the exception covers RESIDENT values only: a value that was still in the insert buffer
+            // when the clear discarded it never became resident and is handed back (on_evict).
+            // Decidable for a single client and a key written exactly once (a new item, stored only
+            // after the policy admitted it): the policy never listed the key before the clear returned.
+            let idx = p.cfg.build_key(v.key).0;
+            let writes_of_key = p.setup.iter().chain(p.threads.iter().flatten()).chain(p.post.iter()).filter(|o| matches!(o, Op::Ins { k, .. } | Op::Pres { k, .. } if *k == v.key)).count();
+            let closes = t.recs.iter().any(|r| r.op == Op::Close);
+            if p.threads.len() == 1 && writes_of_key == 1 && !closes && matches!(w.op, Op::Ins { .. }) {
+                if let Some(c) = t.recs.iter().filter(|r| r.op == Op::Clear && r.ret > w.call).min_by_key(|r| r.ret) {
+                    let ever_charged = t.policy_events.iter().any(|e| e.at > w.call && e.at < c.ret && e.snap.key_costs.iter().any(|(k, _)| *k == idx));
+                    if !ever_charged && w.ret < c.call {
+                        out.push(f("value-vanished", format!("{:?} (insert returned true) was still buffered when clear() discarded it (the policy never admitted key {}), yet it was handed to no callback", v, v.key)));
+                        continue;
+                    }
+                }
+            }
         }
         if let Some(e) = evs.first() {
             for l in t.recs.iter().filter(|r| is_lookup(r) && r.call > e.at) {
@@ -952,8 +968,23 @@ pub fn o_barrier(p: &Program, t: &Trace) -> Vec<Finding> {
     // Some(values): the key holds one of the values inserted since it was last absent (a second
     // insert of a key whose first insert is still buffered is refused by the policy: either may stay)
     let mut model: BTreeMap<u64, Option<Vec<Val>>> = BTreeMap::new();
+    // keys whose remove() has not been flushed by a barrier yet / keys written in that state: the
+    // queued deletion is applied to whatever is resident when the processor reaches it, so a
+    // write issued after the remove may be taken out by it (the buffered-delete design, §11.4)
+    let mut pending_rem: HashSet<u64> = HashSet::new();
+    let mut maybe_gone: HashSet<u64> = HashSet::new();
     let mut barrier_ok = false;
     for r in mine {
+        if matches!(r.op, Op::Ins { .. } | Op::Pres { .. }) {
+            if let Some(k) = r.op.key() {
+                if pending_rem.contains(&k) {
+                    maybe_gone.insert(k);
+                }
+            }
+        }
+        if matches!(r.op, Op::Settle) || (r.op == Op::Wait && r.res == Res::Unit) {
+            pending_rem.clear();
+        }
         match r.op {
             Op::Ins { k, .. } => {
                 barrier_ok = false;
@@ -975,6 +1006,8 @@ pub fn o_barrier(p: &Program, t: &Trace) -> Vec<Finding> {
             }
             Op::Rem { k } => {
                 barrier_ok = false;
+                pending_rem.insert(k);
+                maybe_gone.remove(&k);
                 if r.res == Res::Unit {
                     model.insert(k, None);
                 } else {
@@ -991,7 +1024,7 @@ pub fn o_barrier(p: &Program, t: &Trace) -> Vec<Finding> {
                 if let Some(exp) = model.get(&k) {
                     match (exp, &r.res) {
                         (Some(vs), Res::Val(Some((x, _)))) if vs.contains(x) => {}
-                        (Some(_), Res::Val(None)) if foreign_clear => {}
+                        (Some(_), Res::Val(None)) if foreign_clear || maybe_gone.contains(&k) => {}
                         (None, Res::Val(None)) => {}
                         (Some(vs), other) => out.push(f("barrier-insert-not-applied", format!("wait() returned Ok but {} returned {:?}; this thread's insert of {:?} should have been applied", r.op.short(), other, vs))),
                         (None, other) => out.push(f("barrier-remove-not-applied", format!("wait() returned Ok but {} returned {:?}; this thread removed the key before", r.op.short(), other))),
@@ -1011,7 +1044,7 @@ pub fn o_barrier(p: &Program, t: &Trace) -> Vec<Finding> {
                                 if resident && charged.is_none() {
                                     out.push(f("barrier-not-charged", format!("wait() returned Ok: {:?} is resident but not charged", v)));
                                 }
-                                if !resident && !foreign_clear {
+                                if !resident && !foreign_clear && !maybe_gone.contains(k) {
                                     out.push(f("barrier-insert-not-applied", format!("wait() returned Ok but {:?} is not resident", v)));
                                 }
                             }
@@ -1047,7 +1080,7 @@ pub fn o_clear_empty(p: &Program, t: &Trace) -> Vec<Finding> {
             continue;
         }
         // writes that could still be in flight / issued after the clear began
-        let later_write = t.recs.iter().any(|r| matches!(r.op, Op::Ins { .. } | Op::Pres { .. } | Op::Mut { .. }) && r.ret > c);
+        let later_write = t.recs.iter().any(|r| matches!(r.op, Op::Ins { .. } | Op::Pres { .. } | Op::Mut { .. }) && r.ret > c && r.call < s.at);
         if later_write {
             // still: nothing whose insert had returned before the clear was called may be resident
             for e in &s.entries {
@@ -1066,7 +1099,7 @@ pub fn o_clear_empty(p: &Program, t: &Trace) -> Vec<Finding> {
             out.push(f("clear-charge-left", format!("after clear() and quiescence the policy still charges {} for {:?}", s.policy.used, s.policy.key_costs)));
         }
         if let Some(m) = &s.metrics {
-            let later_ops = t.recs.iter().any(|r| (is_lookup(r) || matches!(r.op, Op::Rem { .. })) && r.ret > c);
+            let later_ops = t.recs.iter().any(|r| (is_lookup(r) || matches!(r.op, Op::Rem { .. })) && r.ret > c && r.call < s.at);
             if !later_ops {
                 let all = [m.hits, m.misses, m.keys_added, m.keys_updated, m.keys_evicted, m.cost_added, m.cost_evicted, m.sets_dropped, m.sets_rejected, m.gets_dropped, m.gets_kept];
                 if all.iter().any(|x| *x != 0) {
